@@ -20,7 +20,7 @@ MANIFEST = {
     "note": ("Trusted: Lean kernel + propext/Classical.choice/Quot.sound; the max-age regex, udn_from_usn, the location test and "
              "ip_version_from_location are hand-modelled for ASCII input and the URL grammar of the generator (sampled, not proved); "
              "header maps are the abstract maps of C16; datetime arithmetic is integer microseconds (overflow is C02's concern); "
-             "127.0.0.2 and other loopback spellings outside the code's needle list are accepted by code, model and judge alike."),
+             "the judges read a location by the property text (Parse.locByText: http/https URL whose host is not loopback / IPv4 link-local); the library's three-substring test accepts more (open finding F03a, dedicated input stream); the model follows the library."),
     "technique": "Lean 4 proof (invariants by induction over event histories) + generated-constant pins + model/implementation correspondence",
 }
 RULE = ("histories of raw SSDP datagrams (search responses, ssdp:alive/update/byebye, invalid and dropped packets) over 3 devices x 3 "
@@ -50,7 +50,13 @@ def recipes(ctx: Ctx):
         i += 1
     depth = 3 if ctx.thorough else 2
     for ops in K.exhaustive_histories(depth):
-        out.append((f"e{i}", {"ops": ops}))
+        out.append((f"e{i}", {"ops": ops, "cbs": ["both", "sync", "async"][i % 3]}))
+        i += 1
+    for nd in ([70, 130] if not ctx.thorough else [70, 130, 200, 300, 90, 150, 65, 100]):
+        out.append((f"m{i}", {"ops": K.many_devices_history(ctx.rng, nd)}))
+        i += 1
+    for _ in range(40 if ctx.thorough else 12):
+        out.append((f"f{i}", {"ops": K.f03a_history(ctx.rng)}))
         i += 1
     n_random = 18000 if ctx.thorough else 1200
     for _ in range(n_random):
@@ -62,7 +68,7 @@ def recipes(ctx: Ctx):
             ops = K.rand_history(ctx.rng, n, p_invalid=0.35, p_purge=0.25)
         else:
             ops = K.rand_history(ctx.rng, n)
-        out.append((f"r{i}", {"ops": ops}))
+        out.append((f"r{i}", {"ops": ops, "cbs": ctx.rng.choice(["both", "both", "sync", "async"])}))
         i += 1
     return out
 
